@@ -69,6 +69,23 @@ def protocol(ctx, it, r, q, out_param="output_file", n_writes=1, allow_multi=Fal
     ctx.count(1)
     if not tm.has_call(to_term(r.ret), "cryocat.tiltstack.TiltStack.correct_order"):
         ctx.finding(q, "return value", "the result must be returned through correct_order() (requested axis order)", fn, m)
+    else:
+        rt_ = to_term(r.ret)
+        # shape-only library calls keep the element-wise value (the term is unchanged) but not the shape: looked up among the calls
+        sq_ = [e for e in it.events if e.kind == "call" and e.fn == q and e.name.split(".")[-1] in ("squeeze", "ravel", "flatten", "atleast_3d")
+               and e.args and tm.has_call(to_term(e.args[0]), "cryocat.tiltstack.TiltStack.correct_order")]
+        if sq_:
+            ctx.finding(q, sq_[0].node, f"the ordered stack goes through {sq_[0].name.split('.')[-1]} before it is returned: a stack that holds a single image "
+                        "comes back without its tilt axis, so result[..., 0] / result[0] is a line of the image, and array and written file no longer "
+                        "have the same shape", sq_[0].node, m)
+        elif not (rt_.op == "call" and str(rt_.args[0]) == "cryocat.tiltstack.TiltStack.correct_order"):
+            # something acts on the ordered stack before it is handed back
+            if tm.contains(rt_, lambda n: n.op == "call" and str(n.args[0]) in ("numpy.squeeze", ".squeeze", "numpy.atleast_3d", "numpy.ravel", ".ravel", ".flatten", ".reshape", "numpy.reshape")):
+                ctx.finding(q, "return value", f"the ordered stack is reshaped before it is returned ({tm.show(rt_)[:80]}): a stack that holds a single "
+                            "image comes back without its tilt axis, so result[..., 0] / result[0] is a line of the image, and array and written file "
+                            "no longer have the same shape", fn, m)
+            else:
+                raise Unsupported(f"the value returned is derived from correct_order() in a way the rule does not follow: {tm.show(rt_)[:80]}", fn)
     return upd
 
 
